@@ -59,7 +59,8 @@ REQUIRED_CELLS = {
               'vle:two-phase', 'vle:multi_stream', 'vle:second-call', 'vle:spec=VP', 'vle:spec=TP', 'vle:spec=TV',
               'vle:spec=PQ', 'vle:spec=xy',
               'phase_split:n>=2', 'phase_split:wrong-count', 'chemical_splits:ab', 'chemical_splits:mixed',
-              'material_balance:exact', 'material_balance:lstsq', 'material_balance:n>=2'],
+              'material_balance:exact', 'material_balance:lstsq', 'material_balance:n>=2',
+              'material_balance:exact,scaled', 'material_balance:lstsq,scaled'],
     'thorough': [],
 }
 
@@ -1025,6 +1026,22 @@ def prop_material_balance(ch, ctx):
     x_true = np.array([ch.logfloat(f'x{j}', -2, 2) for j in range(k)], float)
     n_ci = ch.int('n_const_in', 0, 2)
     cin = [np.array(ch.flows(f'cin{j}.flow', n, -2, 2), float) for j in range(n_ci)]
+    A0 = np.array(var, float).T[chosen, :]
+    cond0 = float(np.linalg.cond(A0))                       # conditioning before the scaling below
+    # badly scaled but invertible systems: trace make-up streams (whole stream 1e-3 .. 1e-9 of the bulk ones) whose
+    # key chemical is also a trace species everywhere else (so that its balance is a meaningful row of the system)
+    sexp = [0] * k
+    if k >= 2 and ch.int('scaled', 0, 2) == 2:
+        for j in range(1, k):
+            sexp[j] = ch.choice(f'var{j}.scale', [0, -6, -7, -8, -9, -3])
+        for j in range(1, k):
+            if not sexp[j]: continue
+            sc = 10.0 ** sexp[j]; d = chosen[rowperm[j]]
+            var[j] = var[j] * sc
+            for jj in range(k):
+                if jj != j: var[jj][d] *= sc
+            for f in cin: f[d] *= sc
+    scaled = any(sexp)
     n_co = ch.int('n_const_out', 1, 3)
     A_full = np.array(var, float).T                         # n x k
     need_out = A_full @ x_true + (sum(cin) if cin else np.zeros(n))
@@ -1042,8 +1059,9 @@ def prop_material_balance(ch, ctx):
     A = A_full[chosen, :]
     cond = float(np.linalg.cond(A))
     vin = [mk(th, f) for f in var]; ci = [mk(th, f) for f in cin]; co = [mk(th, f) for f in couts]
-    region = f'exact={int(exact)},k={min(k, 2)},cin={int(bool(cin))}'
+    region = f'exact={int(exact)},k={min(k, 2)},cin={int(bool(cin))}' + (',scaled=1' if scaled else '')
     ctx.cell('material_balance:' + ('exact' if exact else 'lstsq'))
+    if scaled: ctx.cell('material_balance:' + ('exact' if exact else 'lstsq') + ',scaled')
     if k >= 2: ctx.cell('material_balance:n>=2')
     ctx.call('material_balance', sep.material_balance, IDs, vin, ci, co, exact, 'flow', region=region)
     new = [tot(s) for s in vin]
@@ -1051,14 +1069,38 @@ def prop_material_balance(ch, ctx):
     in_tot = sum(new) + (sum(cin) if cin else 0.0)
     scale = max(1.0, float(np.abs(out_tot[chosen]).max()), float(max(v.max() for v in var)))
     res = (in_tot - out_tot)[chosen]
-    tol = 1e-13 * max(cond, 1.0) * 10
-    ctx.metric_max('material_balance:residual/scale', float(np.abs(res).max()) / scale)
+    # per-chemical relative residual: each chosen chemical against the sum of its own terms
+    den = np.abs(A) @ x_true + (sum(cin)[chosen] if cin else 0.0) + out_tot[chosen]
+    rel = np.abs(res) / np.where(den > 0, den, 1.0)
+    tag = ('exact' if exact else 'lstsq') + (',scaled' if scaled else '')
+    # exact path (LU): row-wise accuracy governed by the conditioning of the unscaled matrix (observed <= 7e-15).
+    # least-squares path (SVD): normwise backward stable only, |A x - b| <= c*eps*(|A| |x| + |b|) in 2-norms
+    b_vec = out_tot[chosen] - (sum(cin)[chosen] if cin else 0.0)
+    nrm = float(np.linalg.norm(A, 2) * np.linalg.norm(x_true) + np.linalg.norm(b_vec))
+    if exact:
+        bad = not (rel <= 1e-12 * max(cond0, 1.0)).all()
+        ctx.metric_max(f'material_balance:rel_residual({tag})', float(rel.max()))
+    else:
+        bad = not (np.abs(res) <= 1e3 * 2.2e-16 * nrm).all()
+        ctx.metric_max(f'material_balance:residual/(eps*(|A||x|+|b|))({tag})', float(np.abs(res).max()) / (2.2e-16 * nrm))
+        ctx.metric_max(f'material_balance:rel_residual({tag})', float(rel.max()))
     ctx.metric_max('material_balance:cond', cond)
-    if not np.abs(res).max() <= tol * scale:
-        ctx.fail(f'material_balance|{region}|residual', f'in-out on chosen chemicals = {res.tolist()} (scale {scale:.3g})')
+    ctx.metric_max('material_balance:cond0', cond0)
+    if bad:
+        ctx.fail(f'material_balance|{region}|residual', f'(in-out)/terms on chosen chemicals = {rel.tolist()} '
+                 f'(in-out = {res.tolist()}, cond {cond:.3g})')
     for j, (f0, f1) in enumerate(zip(var, new)):
         # each variable inlet is only rescaled (composition kept), by the constructed factor
-        if not np.allclose(f1, f0 * x_true[j], rtol=1e-9 * max(cond, 1.0), atol=1e-12 * scale):
+        ferr = float(np.abs(f1 - f0 * x_true[j]).max() / max(f0.max() * x_true[j], 1e-300))
+        ctx.metric_max(f'material_balance:factor_err({tag})', ferr)
+        if exact:
+            rtol = 1e-9 * max(cond0, 1.0)
+        else:
+            # forward error of an SVD solve: eps*cond*|x|/x_j
+            fbound = 2.2e-16 * max(cond, 1.0) * float(np.linalg.norm(x_true)) / x_true[j]
+            ctx.metric_max(f'material_balance:factor_err/(eps*cond*|x|/x_j)({tag})', ferr / fbound)
+            rtol = max(1e-9 * max(cond0, 1.0), 1e2 * fbound)
+        if not np.allclose(f1, f0 * x_true[j], rtol=rtol, atol=1e-12 * f0.max() * x_true[j]):
             ctx.fail(f'material_balance|{region}|factor', f'variable inlet {j}: {f0.tolist()} -> {f1.tolist()}, '
                      f'expected factor {x_true[j]!r}')
         if (f1 < 0).any():
